@@ -5,6 +5,7 @@
    the same numbering (the model mirrors the discovery order of the code), same
    transition on every byte, same accepting / terminal flags, same tag sets. *)
 From Coq Require Import List NArith PArith FMapPositive Bool Arith.
+From SNT Require Import Corr.C15Corr.
 From SNT Require Import Base.Outcome Base.Report Automata.Regex Automata.NFA Automata.Compile
   Automata.CompileFast Automata.DfaData Automata.ProdNfaData.
 Import ListNotations.
@@ -46,16 +47,33 @@ Fixpoint infos_agree (a : list dinfo) (b : list info) : bool :=
   | _, _ => false
   end.
 
-(* 0 = agreement; other values say what differs *)
+(* the dumped DFA in the form of the model, for the breadth-first canonical form of C15Corr *)
+Definition of_data (dd : dfa_data) : Compile.dfa :=
+  mkdfa (N.to_nat (dd_start dd))
+        (flat_map (fun r => map (fun c => option_map N.to_nat (row_find r c)) all_bytes) (dd_rows dd))
+        (map (fun p => mkinfo (fst (fst p)) (snd (fst p)) (prod_tags (snd p))) (dd_infos dd))
+        256.
+
+(* 0 = the model reproduces the production DFA state for state in the code's own numbering;
+   10 = same DFA up to the numbering of states (the discovery order of the code differs from the
+   model's: not a violation, c15_check canonicalises too); other values say what differs *)
 Definition prod_agree (fuel cf : nat) (nd : nfa_data) (dd : dfa_data) : N :=
   (* compile_fast = compile (CompileFastProofs.compile_fast_eq): same result, binary state ids *)
   match compile_fast fuel cf (to_nfa nd) with
   | Ok d =>
-      if negb (N.eqb (N.of_nat (dstart d)) (dd_start dd)) then 1%N
-      else if negb (Nat.eqb (length (dinfos d)) (length (dd_rows dd))) then 2%N
-      else if negb (table_agree (lang_size d) (dtable d) (dd_rows dd)) then 3%N
-      else if negb (infos_agree (dinfos d) (dd_infos dd)) then 4%N
-      else 0%N
+      let code :=
+        if negb (N.eqb (N.of_nat (dstart d)) (dd_start dd)) then 1%N
+        else if negb (Nat.eqb (length (dinfos d)) (length (dd_rows dd))) then 2%N
+        else if negb (table_agree (lang_size d) (dtable d) (dd_rows dd)) then 3%N
+        else if negb (infos_agree (dinfos d) (dd_infos dd)) then 4%N
+        else 0%N in
+      match code with
+      | 0%N => 0%N
+      | _ => match canon d, canon (of_data dd) with
+             | Some a, Some b => if list_eqb cstate_eqb a b then 10%N else code
+             | _, _ => code
+             end
+      end
   | Panic k => (100 + k)%N
   | OutOfFuel => 98%N
   | Err _ => 99%N
